@@ -374,6 +374,10 @@ def apply_edit(nb, op, rnd, where=None):
         else:
             if c['outputs']:
                 k = rnd.randrange(len(c['outputs']))
+                # outputs whose bundle has a media type spelled with capitals are edited half of the time when there is one
+                special = [j for j, x in enumerate(c['outputs']) if any(m != m.lower() for m in x.get('data', {}))]
+                if special and rnd.random() < 0.5:
+                    k = rnd.choice(special)
                 o = c['outputs'][k]
                 if o['output_type'] == 'stream':
                     o['text'] = o['text'] + rnd.choice(['extra\n', 'more output\n'])
@@ -390,7 +394,7 @@ def apply_edit(nb, op, rnd, where=None):
                         o['data']['application/vnd.loader.v0+json'] = o['data']['application/vnd.loader.v0+json'].replace('1.14.6', '1.14.7') \
                             if '1.14.6' in o['data']['application/vnd.loader.v0+json'] else o['data']['application/vnd.loader.v0+json'].replace('1.14.7', '1.14.6')
                     for mk in [m for m in o['data'] if m != m.lower() and isinstance(o['data'][m], str)]:
-                        if rnd.random() < 0.7:
+                        if rnd.random() < 0.9:
                             o['data'][mk] = o['data'][mk] + rnd.choice(['$b$\n', '%'])
                     if isinstance(o['data'].get('application/json'), int) and rnd.random() < 0.4:
                         o['data']['application/json'] += 1          # a different number (never a Python-equal one: finding C02-pyeq)
@@ -973,6 +977,15 @@ def sweep_pairs(seed, minors=(5, 4)):
                     continue
                 if validate_strict(b):
                     continue
+                yield copy.deepcopy(a), b
+            # always: every payload stored under a media type spelled with capitals gets edited once
+            b = copy.deepcopy(a)
+            hit = False
+            for o in b['cells'][1].get('outputs', []):
+                for mk in [m for m in o.get('data', {}) if m != m.lower() and isinstance(o['data'][m], str)]:
+                    o['data'][mk] = o['data'][mk] + '$c$\n'
+                    hit = True
+            if hit and not validate_strict(b):
                 yield copy.deepcopy(a), b
 
 
